@@ -40,6 +40,7 @@ ALL_MODELS = discover()
 #  - transport configuration classes (transports.*): not wire payloads; their validators (url scheme, positive
 #    timeouts) are configuration checks - stdio parameters are exercised by C20.
 MODELS = {k: v for k, v in ALL_MODELS.items() if not k.startswith("transports.") and ".json_rpc_message." not in k}
+ALIAS_WIRE_NAMES = []  # filled below, after fields_of is defined
 EXCLUDED = sorted(set(ALL_MODELS) - set(MODELS))
 
 
@@ -172,9 +173,47 @@ class ShapeBuilder:
             if isinstance(v, Slot) and (cls.__name__, name) in FIELD_PREFIX:
                 v.prefix = FIELD_PREFIX[(cls.__name__, name)]
             wire[wname] = v
-        if self.variant in ("full", "two", "empty") and depth == 0:
+        if self.variant in ("full", "two", "empty", "meta") and depth == 0:
             wire["x_unknown_member"] = {"kept": self.slot("s")}
+        if self.variant == "meta" and depth == 0:
+            # every wire name that is an alias SOMEWHERE in the package, given to a model that does not declare it:
+            # it is an ordinary unknown member there and must come back under exactly that name
+            for w in ALIAS_WIRE_NAMES:
+                if w not in wire and w not in [wn for _, wn, *_ in fields_of(cls)]:
+                    wire[w] = {"sentinel": self.slot("s")}
         return wire
+
+
+def _alias_wire_names():
+    out = set()
+    for cls in ALL_MODELS.values():
+        for name, wname, *_ in fields_of(cls):
+            if wname != name:
+                out.add(wname)
+    return sorted(out)
+
+
+def same_name_pairs():
+    """distinct model classes that share their class name (e.g. messages.tools.Tool / types.tools.Tool)"""
+    by = {}
+    for k, c in MODELS.items():
+        by.setdefault(c.__name__, []).append(k)
+    return [(ks[i], ks[j]) for ks in by.values() if len(ks) > 1 for i in range(len(ks)) for j in range(len(ks)) if i != j]
+
+
+def pair_order(key_a, key_b, s0, s1, i0, b0):
+    """two same-named classes used one after the other IN ONE PROCESS: neither may inherit the other's field types,
+    aliases or defaults (per-name caches)"""
+    r = lossless(key_a, "meta", 0, s0, s1, i0, b0)
+    if r != "ok":
+        return "first:" + r
+    r = lossless(key_b, "meta", 0, s0, s1, i0, b0)
+    if r != "ok":
+        return "second:" + r
+    r = lossless(key_a, "full", 0, s1, s0, i0, b0)
+    if r != "ok":
+        return "first-again:" + r
+    return "ok"
 
 
 def variants_for(cls, tier):
@@ -515,3 +554,6 @@ def witness_outcomes(tier):
         except Exception:
             res["invariant|completion|%d" % n] = ["rejected"]
     return res
+
+
+ALIAS_WIRE_NAMES[:] = _alias_wire_names()
